@@ -21,6 +21,17 @@ from .values import (NONE, Arr, B, ClassRef, Closure, Fn, FuncRef, I, Mod, NoneV
                      PyDict, PyList, R, Str, Sym, SymList, Tup, Z, fresh, to_int, to_real)
 
 
+import os as _os
+import re as _re
+_TAG = _re.compile(r"\bC\d\d\b")
+_PROP = _os.environ.get("PYVC_PROPERTY", "")
+
+
+def set_property(p):
+    global _PROP
+    _PROP = p
+
+
 # --------------------------------------------------------------------------- signals
 class PathEnd(Exception):
     """path is over (infeasible assumption, loop-body end, explicit stop)"""
@@ -223,6 +234,11 @@ class Path:
         the fork, so it is only (re-)assumed."""
         if isinstance(goal, bool):
             goal = z3.BoolVal(goal)
+        if _PROP and not self.replaying:
+            tags = _TAG.findall(name)
+            if tags and _PROP not in tags:
+                # obligation of another property: decided by that property's own check; neither proved nor assumed here
+                return True
         if not self.replaying:
             g = z3.simplify(goal)
             t = time.time()
